@@ -16,7 +16,7 @@ pub fn norm(s: &JStr) -> String {
             for c in u {
                 if c < 0x80 {
                     let ch = c as u8 as char;
-                    if ch.is_ascii_alphanumeric() || "/;[()<>:.$_-+*=,!?@#%&|^~{} ".contains(ch) {
+                    if ch.is_ascii_alphanumeric() || "/;[()<>:.$_-+*=,!@#%&|^~{} ".contains(ch) {
                         out.push(ch);
                     }
                 }
